@@ -25,6 +25,13 @@ T = {
  "C04": ("Static analysis: the DDL templates extracted from the source give UID and mailbox-id columns INTEGER PRIMARY KEY AUTOINCREMENT (checked on the tables SQLite builds); no run-time statement assigns/recycles UIDs or writes sqlite_sequence; every UIDNEXT announcement originates (inter-procedural value-flow, call-site sensitive through the generic transaction wrappers) from db.GetMailboxUID whose statement reads the persisted counter; every UIDVALIDITY written to the database originates from UIDValidityGenerator.Generate(); the epoch generator's CAS is guarded by new > last and lastUID is only touched atomically; APPENDUID/COPYUID UIDs originate from the rows the insert returned. Monotonicity across restarts depends on the wall clock and is not decided.",
          "Trusts go/ssa, the value-flow walk (fields of returned rows are attributed to the query that returned them), SQLite's AUTOINCREMENT semantics.",
          "inter-procedural value-origin (T-SOURCE) analysis on SSA + schema/statement checks with SQLite", "DESIGN.md 4/C04"),
+
+ "C11": ("Static analysis: (1) abstract interpretation of the parser's SSA under the assumption 'scanner at end of input' (only Scanner.ScanToken is modelled; token predicates, Check/Matches/Consume and wrappers are interpreted with the predicate passed at each call site) proves that no loop of rfcparser / imap/command has a cycle forced to continue at EOF (no spin / unbounded growth on a truncated stream); (2) every call-graph cycle over client input is cut by a depth guard or has a compiler-derived stack bound below the fatal 1 GB limit; (3) allocations sized by a parsed number are dominated by upper and lower bounds; (4) the reader resynchronises after a parse error, errors are answered BAD with the line's tag and counted against a limit; (5) a tagged response travelling as error is sent by some caller. Memory growth proportional to an unterminated line and the exactly-one-completion count for every handler are not decided.",
+         "Trusts go/ssa, the abstract interpreter (unknown values keep both branches, so only definite spins are reported), compiler frame sizes from go build -gcflags=-S, and the grammar-derived bytes-per-level table printed in evidence.",
+         "abstract interpretation (conditional constant propagation over a token-state) + call-graph SCC/depth-guard analysis + dominator bounds", "DESIGN.md 4/C11"),
+ "C12": ("Static analysis of the crash/termination clauses: T-EOF abstract interpretation of the rfc5322 parser (no loop spins at end of input), and T-REC over rfc5322/rfc822/imap structure code: the comment recursion is depth-guarded, the MIME-tree recursions are bounded below the fatal stack limit by (compiler frame size) x (30 MiB literal cap / 29 bytes per nesting level). Absence of index panics, well-formedness of every produced list and equality with the MIME tree are not decided by these rules.",
+         "Trusts go/ssa, compiler frame sizes, the 29-bytes-per-level justification printed in evidence.",
+         "abstract interpretation at EOF + call-graph SCC stack-bound analysis", "DESIGN.md 4/C12"),
 }
 NA_REASON = {}
 checks = []
